@@ -66,7 +66,7 @@ claim(
     "C04",
     "Lean 4 proof (substitution lemma: evaluation under call bindings = evaluation of the substituted body; induction over macro table and statements) + whole-dump differential correspondence with expand_macros",
     "Theorems C04_meaning, C04_no_calls, C04_header, C04_shape, C04_arity(_call/_first), C04_idempotent prove for every well-formed circuit (any number of macros, any acyclic call graph, parameters used as qubit / number / index / loop count / subcircuit count / passed on, any block context) and every override environment that macro expansion preserves the specification-level gate meaning, leaves no macro call, carries header data over unchanged, yields a spliced normal form that is a fixed point of the pass, and rejects wrong-arity calls.",
-    COMMON_NOTE + "WellFormed is an explicit decidable predicate capturing what the builder guarantees; CPython's recursion limit is not modelled.",
+    COMMON_NOTE + "WellFormed is an explicit decidable predicate capturing what the builder guarantees; Props/ParsedC04.lean discharges it: C04_meaning_parsed, C04_no_calls_parsed, C04_header_parsed, C04_shape_parsed, C04_idempotent_parsed, C04_total_class_parsed state the same conclusions with `Pipeline.parseProgram cfg txt = .ok c` (the model of parse + build on a text) as the ONLY premise on the circuit, through Lemmas/ParsedLegal.lean: parsed_legal (every circuit the parser model returns, for every configuration and text, is Legal). CPython's recursion limit is not modelled.",
     "DESIGN.md §7 C04",
 )
 claim(
@@ -139,14 +139,14 @@ claim(
     "C05",
     "Lean 4 proof (logical relation between evaluation under the override environment and evaluation of the substituted circuit; inversion of the rebuild through the builder model) + whole-dump differential correspondence with fill_in_let under random override dictionaries",
     "Theorems C05_meaning, C05_no_consts, C05_shadow(_gate/_qubit), C05_frame, C05_revalidate, C05_shrink_rejected, C05_idempotent_val prove for every well-formed circuit and every override dictionary that the result means, under the empty environment, what the original means with each constant bound to its overriding value if given else its declared value; that no constant is left in any gate argument, index, size, bound, loop or subcircuit count (body, macros, registers); that macro parameters shadowing a constant are untouched; that block kinds, subcircuit annotations, macros, natives and usepulses are preserved; and that indices are re-checked against the NEW sizes (an override shrinking a register below a used index is rejected).",
-    COMMON_NOTE + "C05_idempotent_full (a second fill_in_let with ANY override dictionary returns the circuit unchanged) is proved as C05_idempotent in Props/C10.lean (Lemmas/PassesIdem.lean). One open known finding (defaulted-stop-frozen: `map c a[1:]` over an alias whose size depends on an overridden let keeps the stop computed at build time) is a genuine deviation from the property recorded in known_findings.txt; the model reproduces the code: C05_meaning is about the BUILT circuit, in which that stop is already a number, so the deviation sits between the text and the built circuit under overrides; the direct oracle meaning_under_overrides exhibits it and the check prints it as KNOWN-FINDING.",
+    COMMON_NOTE + "Props/ParsedC05.lean (C05_meaning_parsed, C05_meaning_env_parsed, C05_no_consts_parsed, C05_frame_parsed, C05_idempotent_parsed) states the conclusions for every circuit the parser model returns, the well-formedness hypotheses discharged by parsed_legal. C05_idempotent_full (a second fill_in_let with ANY override dictionary returns the circuit unchanged) is proved as C05_idempotent in Props/C10.lean (Lemmas/PassesIdem.lean). One open known finding (defaulted-stop-frozen: `map c a[1:]` over an alias whose size depends on an overridden let keeps the stop computed at build time) is a genuine deviation from the property recorded in known_findings.txt; the model reproduces the code: C05_meaning is about the BUILT circuit, in which that stop is already a number, so the deviation sits between the text and the built circuit under overrides; the direct oracle meaning_under_overrides exhibits it and the check prints it as KNOWN-FINDING.",
     "DESIGN.md §7 C05",
 )
 claim(
     "C06",
     "Lean 4 proof (induction over alias chains: closed-form resolution = list denotation of the specification; consumers factor through one function) + differential correspondence with resolve_qubit / fill_in_map / the emulator",
     "Theorems C06_resolve_slice/_whole/_single, C06_resolve_closed_form, C06_resolve_eq_spec, C06_register_denotation, C06_total, C06_valid_of_builder, C06_in_range, C06_mapVal_qubit, C06_fill_in_map, C06_agree_used/_fill/_emulator, C06_alias_same_as_direct prove for alias chains of any depth (whole, single-qubit, strided incl. negative steps, literal / defaulted / let-valued bounds and sizes) that element i of src[start:stop:step] is element start+i·step of src, that the composed closed form equals the specification's extensional reading, that the index lies in the fundamental register, that alias fill-in rewrites every qubit argument (body and macros) to that fundamental qubit and preserves meaning, and that used-qubit analysis, fill-in and the emulator's extraction are the same function of the reference.",
-    COMMON_NOTE + "That the real consumers all call resolve_qubit is a correspondence-level fact checked by oracles (consumers_agree, alias_same_as_direct) on the real emulator.",
+    COMMON_NOTE + "Props/ParsedC06.lean: C06_fill_in_map_parsed discharges FillIn.WellFormed for every parsed circuit and keeps the decidable condition goodRefs (every qubit reference among the gate arguments goes through a valid chain with an integer index) explicit — it cannot be dropped: goodRefs_parsed_fails / goodRefs_parsed_fails_param exhibit parsed circuits without it (a slice leaving a let-sized register, which fill_in_let rejects; a macro body indexing a parameter, which fill_in_map refuses). That the real consumers all call resolve_qubit is a correspondence-level fact checked by oracles (consumers_agree, alias_same_as_direct) on the real emulator.",
     "DESIGN.md §7 C06",
 )
 
@@ -154,7 +154,7 @@ claim(
     "C10",
     "Lean 4 proof (canonical-form theorem for applicable pass sequences; legality preserved by every pass; flags = passes) + pipeline table regenerated from the Python ASTs + differential correspondence over random pass sequences",
     "Theorems C10_canonical, C10_commute_meaning, C10_commute_perm, the six pairwise C10_comm_* lemmas, C10_idempotent (all four passes: a second application returns the same circuit; for fill_in_let with any second override dictionary) and C10_idempotent_meaning, C10_flags(_ok), C10_legal_preserved, C10_applicable_of_legal prove that any orders and repetitions of an applicable sequence of the four passes give the same meaning (with 'applicable' made precise: every intermediate circuit legal, and alias fill-in not baking in a let that the overrides in force change; subcircuit expansion acts through the semantic map spellSem), that every pass applied twice returns what it returns once, that every pass preserves legality (both well-formedness predicates and the deep register-chain invariant), and that the parser's expand flags are exactly the passes applied to the plain parse. The pass orders of parse_jaqal_string / run_jaqal_circuit / parse_jaqal_output_list are read out of the Python ASTs on every run and compared with the model's table.",
-    COMMON_NOTE + "Legality is the model's decidable predicate `Legal` (what the builder accepts); that the generated TEXT of a legal circuit parses back (C10_legal_text_partial) has C01's round trip as hypothesis and is covered by the direct oracle legal_after_pass. One open known finding (defaulted-stop-frozen, see C05) can surface under overrides; it is excluded by `Applicable`.",
+    COMMON_NOTE + "Legality is the model's decidable predicate `Legal` (what the builder accepts); Props/ParsedC10.lean proves it of every parsed circuit and so states the property from texts: C10_legal_parsed, C10_legal_preserved_parsed / C10_legal_seq_parsed (every pass, every sequence of passes on a parsed circuit gives a Legal circuit), C10_applicable_parsed (every sequence without fill_in_map is applicable from a parsed circuit — no hypothesis), C10_commute_parsed (two sequences with the same passes and overrides, both succeeding on a parsed circuit that has a meaning, give the same meaning), C10_commute_parsed_map / C10_applicable_parsed_side (with fill_in_map: under the side condition of its steps only), C10_idempotent_parsed / C10_idempotent_seq_parsed; Props/ParsedEx.lean evaluates all premises on a concrete text (non-vacuity). that the generated TEXT of a legal circuit parses back (C10_legal_text_partial) has C01's round trip as hypothesis and is covered by the direct oracle legal_after_pass. One open known finding (defaulted-stop-frozen, see C05) can surface under overrides; it is excluded by `Applicable`.",
     "DESIGN.md §7 C10",
 )
 claim(
